@@ -18,8 +18,10 @@ type zzLogNode struct {
 	aggkittypes.BaseEthereumClienter
 	logs    []types.Log
 	salt    common.Hash
-	stale   int
-	queries int
+	stale     int // number of header answers that come from another fork ...
+	staleFrom int // ... starting with this header query (0 = the first one)
+	hqueries  int
+	queries   int
 }
 
 func (n *zzLogNode) header(num uint64, fork common.Hash) *types.Header {
@@ -27,10 +29,18 @@ func (n *zzLogNode) header(num uint64, fork common.Hash) *types.Header {
 }
 func (n *zzLogNode) FilterLogs(ctx context.Context, q ethereum.FilterQuery) ([]types.Log, error) {
 	n.queries++
-	return n.logs, nil
+	var out []types.Log
+	for _, l := range n.logs {
+		if l.BlockNumber >= q.FromBlock.Uint64() && l.BlockNumber <= q.ToBlock.Uint64() {
+			out = append(out, l)
+		}
+	}
+	return out, nil
 }
 func (n *zzLogNode) HeaderByNumber(ctx context.Context, num *big.Int) (*types.Header, error) {
-	if n.stale > 0 {
+	q := n.hqueries
+	n.hqueries++
+	if q >= n.staleFrom && n.stale > 0 {
 		n.stale--
 		return n.header(num.Uint64(), common.Hash{0xee}), nil
 	}
@@ -54,6 +64,10 @@ func ZZVerif_C05_Logs() {
 	ctx := context.Background()
 	topicA, topicB, topicX := common.Hash{0xa}, common.Hash{0xb}, common.Hash{0xc}
 	node := &zzLogNode{salt: zzverif.Hash("fork"), stale: stale}
+	if stale > 0 && stale <= MaxRetryCountBlockHashMismatch {
+		// the reorg may show on any header query: on the first event block or on a later one
+		node.staleFrom = zzverif.Int("staleFrom", 0, 2)
+	}
 	zzverif.Assume(node.salt != common.Hash{0xee})
 	from := zzverif.U64("from") >> 8
 	prev := from
